@@ -857,6 +857,11 @@ func c02SetMode(c *Ctx, m *Module) {
 		}
 		r.Check("C02.setmode", "SetModeAsOf/written content", m.Pos(cs.Pos()), strings.Contains(d, "strings.TrimSpace(param:mode)") && strings.Contains(d, "(time.Time).Format("),
 			"the mode file must hold the validated mode, a separator and the formatted date; got "+d)
+		// the date is the UTC date of the given time: every reader compares it with UTC dates
+		// (counter files begin at 00:00 UTC), so a local-zone date shifts the opt-in day
+		r.Check("C02.setmode", "SetModeAsOf/recorded date is the UTC date of the given time", m.Pos(cs.Pos()),
+			strings.Contains(d, "(time.Time).Format((time.Time).UTC(param:asofTime), "),
+			"expected asofTime.UTC().Format(DateOnly); got "+d)
 	}
 	rd := m.Func("internal/telemetry", "Dir.Mode")
 	var rsep, rlayout string
